@@ -122,6 +122,15 @@ def run(ctx):
                     reqs.append({"kind": k, "acctid": cps(a["acctid"]), "accttype": cps(a["accttype"]), "dtstart": adt(a["dtstart"]),
                                  "dtend": adt(a["dtend"]), "dtasof": adt(a["dtasof"]), "inctran": a["inctran"], "incoo": a["incoo"],
                                  "incpos": a["incpos"], "incbal": a["incbal"]})
+                if reqs and rnd.random() < 0.3:
+                    # the same request twice in one call (a multiset), possibly with the same instants in another zone
+                    j = rnd.randrange(len(reqs))
+                    dup = pyreqs[j]
+                    if rnd.random() < 0.5 and getattr(dup, "dtstart", None) is not None:
+                        dup = dup._replace(dtstart=dup.dtstart.astimezone(datetime.timezone(datetime.timedelta(minutes=120), "ZZ")))
+                    pos = rnd.randrange(len(reqs) + 1)
+                    pyreqs.insert(pos, dup)
+                    reqs.insert(pos, dict(reqs[j]))
                 ev["reqs"] = reqs
                 data = client.request_statements(password, *pyreqs, dryrun=True, gen_newfileuid=rnd.random() < 0.5).read()
                 ctx.nontrivial.add((version, pretty, close, bool(org), bool(cfgd["clientuid"]), tuple(sorted(x["kind"] for x in reqs))))
